@@ -196,7 +196,7 @@ fn main() {
                 }
             }
         };
-        let res = guarded(threads, Duration::from_secs(30), run);
+        let res = guarded(threads, Duration::from_secs(90), run);
         let (coq_res, json_res) = match &res {
             Guarded::Done(Ok(p)) => (
                 format!("(IOk {})", coq_nlist(p.iter().map(|x| *x as u128))),
@@ -227,7 +227,7 @@ fn main() {
         let key = format!("{alg}|{threads}|{params}|{input}");
         let nontrivial = n >= 3 && distinct >= 2;
         w.push(coq, json, &key, nontrivial, &format!("{alg}:{fam}"));
-        if hangs > 4 {
+        if hangs > 2 {
             break;
         }
     }
